@@ -7,7 +7,7 @@
    ids, 32-byte digests), Version in {0,1}, NEntries / metadata length inside the widths innerHash
    casts them to; `hashed_fields` = ID, PrevAlh, Ts, Version, metadata bytes (version 1), NEntries,
    Eh, BlTxID, BlRoot.  Sessions against an arbitrary server: Proofs/Session.v. *)
-From V Require Import Proofs.History Proofs.Fixed Proofs.Session Proofs.Binding Proofs.Linear
+From V Require Import Proofs.History Proofs.Session Proofs.Binding Proofs.Linear
   Proofs.Sound Proofs.Fork Proofs.HistoryB Proofs.Refuted Merkle.Sound.
 
 (* Alh commits to every hashed header field: two valid headers with the same Alh agree on all of
@@ -61,7 +61,8 @@ Theorem C01_history_checker_sound :
 Proof. exact wf_histb_sound. Qed.
 Print Assumptions C01_history_checker_sound.
 
-(* TAMPER EVIDENCE (VerifyDualProof, trusted state = target): for every well-formed history (any
+(* TAMPER EVIDENCE (VerifyDualProof as it stands, i.e. with the repair of /repo commit d34d669;
+   trusted state = target): for every well-formed history (any
    length, any lag of the binary linking), every proof (any terms, any headers within the Go field
    ranges) accepted against the Alh of the history's transaction targetTxID proves a source header
    that equals the history's header of transaction sourceTxID in every hashed field, and the
@@ -78,21 +79,6 @@ Theorem C01_dual_proof_sound_wrt_history :
     \/ Collision H.
 Proof. exact dual_proof_sound_wrt_history. Qed.
 Print Assumptions C01_dual_proof_sound_wrt_history.
-
-(* The same tamper evidence for the verifier WITH the repair proposed in fixes/C01-targetblalh.diff
-   (model: Proofs/Fixed.v): the repair only adds a rejection, nothing of the above is lost. *)
-Theorem C01_dual_proof_repaired_sound_wrt_history :
-  forall (H : bytes -> bytes), (forall x, length (H x) = 32%nat) ->
-  forall (hs : list txhdr) (p : dual_proof) (src tgt : N) (salh : bytes) (sh th tg : txhdr),
-    wf_hist H hs ->
-    tx_at hs tgt = Some tg ->
-    dp_src p = Some sh -> dp_tgt p = Some th -> hdr_valid sh = true -> hdr_valid th = true ->
-    len32 (dp_incl p) ->
-    verify_dual_proof_fixed H (Some p) src tgt salh (alh_v H tg) = Ok true ->
-    (exists g, tx_at hs src = Some g /\ hashed_fields sh = hashed_fields g /\ salh = alh_v H g)
-    \/ Collision H.
-Proof. exact dual_proof_repaired_sound_wrt_history. Qed.
-Print Assumptions C01_dual_proof_repaired_sound_wrt_history.
 
 (* NO FORK, "the new state extends the trusted one" (either direction of the client flow: trusted
    state = source when a newer transaction / state is being accepted, = target when an older
@@ -171,12 +157,13 @@ Print Assumptions C01_verified_read_sound.
    executable SHA-256, whose primitive-integer operations Print Assumptions would list; the file is
    compiled on every run through Tie/C01.v; replayed on the Go verifiers by the harness):
      session_consistency_v1_refuted        session consistency against an arbitrary server is FALSE
-                                           for VerifyDualProof (TargetBlTxAlh is never related to
-                                           the source when sourceTxID >= target.BlTxID);
-     session_consistency_v1_fixed_refuted  it stays false on lagging headers (source.BlTxID <
-                                           target.BlTxID < sourceTxID) with the proposed repair;
+                                           for VerifyDualProof on headers whose binary linking lags
+                                           (source.BlTxID < target.BlTxID < sourceTxID): a forged
+                                           leaf enters the tree unrelated to the source's chain;
      dual_proof_v2_same_id_refuted         VerifyDualProofV2 with sourceTxID = targetTxID accepts
-                                           two different Alh values. *)
+                                           two different Alh values;
+   and, fixed in /repo (d34d669): session_family_a_before_repair_refuted (the verifier before the
+   repair accepted a forged session on ordinary headers) with family_a_rejected (it no longer does). *)
 
 (* Alh does not commit to NEntries beyond the uint16 cast of innerHash (header version 0). *)
 Theorem C01_alh_nentries_truncation_refuted :
